@@ -25,7 +25,10 @@ Build(us, os) ==
 Ops == {"+", "-", "*", "/"}
 A0 == {Amt("0", 0, 1, ""), Amt("2", 2, 1, ""), Amt("0.5", 1, 2, ""), Amt("1", 1, 1, "X"), Amt("2", 2, 1, "X"),
        Amt("0", 0, 1, "X"), Amt("4", 4, 1, "Y"), Amt("1", 1, 1, "Y")}
+\* a literal may carry its own minus sign (C07), and a unary minus may precede it: `--1 X` is 1 X
+NegLits == {Amt("-2", -2, 1, ""), Amt("-1", -1, 1, "X")}
 U0 == {Un(FALSE, a) : a \in A0} \cup {Un(TRUE, Amt("2", 2, 1, "")), Un(TRUE, Amt("1", 1, 1, "X"))}
+      \cup {Un(FALSE, a) : a \in NegLits} \cup {Un(TRUE, a) : a \in NegLits}
 ASmall == {Amt("2", 2, 1, ""), Amt("0", 0, 1, ""), Amt("1", 1, 1, "X"), Amt("2", 2, 1, "X"), Amt("4", 4, 1, "Y"), Amt("0.5", 1, 2, "")}
 USmall == {Un(FALSE, a) : a \in ASmall}
 
